@@ -105,6 +105,8 @@ def _map(f, dtype=None):
         x = norm(x)
         if isinstance(x, SeriesVal):
             return SeriesVal(g(interp, x.arr), x.name)
+        if isinstance(x, A.Masked):
+            return A.unop(f, x, dtype=dtype)
         if isinstance(x, (A.Arr, Ref, list, tuple)):
             return A.unop(f, _arr(x, interp), dtype=dtype)
         return f(x)
@@ -614,7 +616,7 @@ class Lib:
             from .pandas_model import df_loc_getitem
             return df_loc_getitem(interp, obj.recv, key)
         if isinstance(obj, A.Masked):
-            raise EngineError("indexing a masked selection")
+            return A.masked_getitem(obj, key)
         raise EngineError(f"subscript of {type(obj).__name__}")
 
     def value_setitem(self, interp, obj, key, value):
@@ -632,10 +634,11 @@ class Lib:
         if kind == "arr":
             return self.arr_method(interp, recv, meth, args, kwargs)
         if kind == "masked":
+            axis = kwargs.get("axis", args[0] if args else None)
             if meth == "sum":
-                return A.reduce_sum(recv)
+                return A.reduce_sum(recv, axis)
             if meth == "mean":
-                return A.reduce_mean(recv)
+                return A.reduce_mean(recv, axis)
         if kind == "scalar":
             if meth == "conj":
                 return _conj(recv)
